@@ -239,8 +239,8 @@ def r4(c):
     c.floor('channel waits inside loops', n, 6)
     # the wrappers really turn a closed channel into that outcome
     r = P.fn('rodbus::channel::Receiver::recv')
-    ok_or = [cs for cs in r.calls('core::option::Option::ok_or')]
-    ok = len(ok_or) == 1 and q.sem(r, ok_or[0].args[0]).kind == 'call' and q.sem(r, ok_or[0].args[0]).cs.is_('tokio::sync::mpsc::bounded::Receiver::recv')
+    inner = [cs for cs in r.calls('tokio::sync::mpsc::bounded::Receiver::recv')]
+    ok = len(inner) == 1 and q.failure_leaves(r, inner[0])[0]
     c.ob('wrapper/channel::Receiver::recv', ok, 'channel::Receiver::recv maps a closed mpsc (None) to Err(Shutdown)', '', loc_of(r))
     f = P.fn('rodbus::client::task::ClientLoop::fail_next_request')
     rc = one(f.calls('rodbus::channel::Receiver::recv'), 'recv in fail_next_request')
